@@ -23,12 +23,11 @@ func vGraph(sdb *DbSqlite, nodes, maxExtra, tombMax int) []gEdge {
 		vAssume(err == nil)
 	}
 	g := []gEdge{{"e-root", "root", "root0", 0}}
-	extra := 0
-	for _, pr := range c03Pairs {
-		if pr[1] > nodes || extra >= maxExtra || !vBool() {
+	present := c03Pick(nodes, maxExtra)
+	for i, pr := range c03Pairs {
+		if !present[i] {
 			continue
 		}
-		extra++
 		up, down := c03Nodes[pr[0]], c03Nodes[pr[1]]
 		g = append(g, gEdge{"e" + up + "-" + down, up, down, vChoose(tombMax + 1)})
 	}
